@@ -306,7 +306,13 @@ class Interp:
         key = (owner, fname)
         if key not in heap:
             ty = self.field_ty(owner, fname)
-            m = z3.Const(f"H_{owner.rsplit('.', 1)[-1]}_{fname}", z3.ArraySort(Ref, ty.sort()))
+            short = owner.rsplit('.', 1)[-1]
+            if not hasattr(self, "_heap_names"):
+                self._heap_names = {}
+            # classes of different modules may share their short name (hugr.ext.OpDef / serial OpDef)
+            prev = self._heap_names.setdefault((short, fname), owner)
+            hname = f"H_{short}_{fname}" if prev == owner else f"H_{owner.replace('.', '_')}_{fname}"
+            m = z3.Const(hname, z3.ArraySort(Ref, ty.sort()))
             # the initial heap is shared between the live heap and every snapshot taken before
             # the field was first touched
             heap[key] = m
@@ -321,6 +327,10 @@ class Interp:
         if cls == "*":
             owners = self.owners_of_field(fname)
             return owners[0] if len(owners) == 1 else None
+        um = self.w.union_members(cls)
+        if um is not None:
+            owners = {self.field_owner(m, fname) for m in um}
+            return owners.pop() if len(owners) == 1 else None
         fi = self.w.find_field(cls, fname)
         if fi is not None:
             return fi.owner
